@@ -105,6 +105,10 @@ def worker(payload):
             k = rng.choice([1, 1, 2, 3, 7, 30, 100, 365]); parts.append(k); left -= k
         parts.append(5000)
         res["runs_by_call_partition"] = 1
+    if o.get("structure"):
+        res["disagree"] = 1
+        res["first_bad"] = {"kind": "structure", "what": o["structure"], "cfg": cfg}
+        return res
     lines, exp = sim_lines(o, parts)
     if lines is None or exp is None:
         res["skipped"] = 1
@@ -149,8 +153,11 @@ def run_l3(nsims=None, name="runc", timeout=600, **force):
             "total_s": round(time.time() - t0, 1), "mismatches": bad[:10], "samples": [{"cfg": cfgs[0]}] if cfgs else []}
 
 
+FORCE_BY_PID = {"C19": {"gw": True}}      # whole runs for a property about one feature are drawn with that feature on
+
+
 def run_custom(n, pid):
-    return run_l3(nsims=n, name="runc-" + pid)
+    return run_l3(nsims=n, name="runc-" + pid, **FORCE_BY_PID.get(pid, {}))
 
 
 if __name__ == "__main__":
